@@ -19,22 +19,24 @@ impl GeneratorOps for Tint {
         let mut tint = Vec::new();
         let (r, g, b) = rgb.as_f64();
 
-        if !(0_f64..=1_f64).contains(&factor) {
+        // NaN, zero (a zero step never reaches white) and anything outside ]0, 1] are not factors
+        if !(factor > 0_f64 && factor <= 1_f64) {
             return Err(Error::Generator);
         }
 
-        let mut f = factor;
-        // Push the current value in the vector
-        tint.push(rgb);
-        while f <= 1_f64 {
-            // Increase the factor by the provided factor
+        // the i-th tint is the colour moved i * factor of the way to white (the first one is the colour itself).
+        // Computing it from the index (rather than adding the factor repeatedly) keeps the last step from being lost
+        let steps = (1_f64 / factor).floor();
+        let mut i = 0_f64;
+        while i <= steps {
+            let f = i * factor;
             tint.push(Rgb {
-                r: (r + (255_f64 - r) * f) as u8,
-                g: (g + (255_f64 - g) * f) as u8,
-                b: (b + (255_f64 - b) * f) as u8,
+                r: (r + (255_f64 - r) * f).round() as u8,
+                g: (g + (255_f64 - g) * f).round() as u8,
+                b: (b + (255_f64 - b) * f).round() as u8,
             });
 
-            f += factor;
+            i += 1_f64;
         }
 
         Ok(Tint(tint))
